@@ -35,18 +35,37 @@ def build_with_limit(drv, logic, argstr, seed, opts=None):
     mon = Monitor(tab)
     tab.logic = logic
     tab.argument = Argument(argstr)
-    tab.build()
+    # build() is `for _ in stepiter(): pass`; the loop is spelled out so that the
+    # return values of the public step API are observed
+    while True:
+        entry = tab.step()
+        if entry is None:
+            break
+        if not tab.history or tab.history[-1] is not entry:
+            raise Broken('step() returned an entry that is not the one recorded in the history')
+        if tab.history.count(entry) != 1:
+            raise Broken('a step is recorded more than once')
+        if entry.rule is not entry.target.rule:
+            raise Broken('returned entry names a rule other than its target\'s')
+    if not tab.finished:
+        raise Broken('step() returned None but the tableau is not finished')
     return tab, mon
 
 
-def fn(drv, logic, argstr, seed):
-    tab, mon = build_with_limit(drv, logic, argstr, seed)
+def fn(drv, logic, argstr, seed, sym_opts=False):
+    opts = None
+    if sym_opts:
+        opts = dict(is_group_optim=drv.bool('is_group_optim'), is_rank_optim=drv.bool('is_rank_optim'))
+    tab, mon = build_with_limit(drv, logic, argstr, seed, opts)
     check_all(tab, mon)
+    if tab.flag.TIMING_INACCURATE in tab.flag:
+        raise Broken('tableau flagged TIMING_INACCURATE although every step went through step()')
     return (len(tab.history), tab.valid, tab.invalid, tab.premature)
 
 
 def pair_unit(arg):
-    logic, argstrs, seed, budget, maxlen = arg
+    logic, argstrs, seed, budget, maxlen = arg[:5]
+    nsym = arg[5] if len(arg) > 5 else 0
     from pytableaux.logics import registry
     registry.import_all()
     out = dict(logic=logic, pairs=0, paths=0, decisions=0, queries=0, solver_time=0.0,
@@ -55,15 +74,16 @@ def pair_unit(arg):
     out['skipped_long'] = []
     from pytableaux.lang import Argument
     from pytableaux.proof import Tableau
-    for argstr in argstrs:
+    for ai, argstr in enumerate(argstrs):
+        sym_opts = ai < nsym
         reset_order(seed)
         natural = len(Tableau(logic, Argument(argstr)).build().history)
         if natural > maxlen:
             # outside the stated bound on proof length (cost grows quadratically)
             out['skipped_long'].append((argstr, natural))
             continue
-        ex = Explorer((), max_paths=400, max_seconds=budget)
-        paths = ex.run(lambda: fn(drv, logic, argstr, seed))
+        ex = Explorer((), max_paths=1600, max_seconds=budget)
+        paths = ex.run(lambda: fn(drv, logic, argstr, seed, sym_opts))
         st = ex.stats()
         out['pairs'] += 1
         out['paths'] += st['paths']
@@ -79,6 +99,8 @@ def pair_unit(arg):
             if p.kind != 'ok':
                 wit = model_values(ex.witness(p))
                 out['bad'].append(dict(argstr=argstr, k=wit.get('k', 0),
+                                       opts={n: bool(wit.get(n, True)) for n in
+                                             ('is_group_optim', 'is_rank_optim')} if sym_opts else None,
                                        error=f'{type(p.value).__name__}: {p.value}',
                                        is_broken=isinstance(p.value, Broken)))
         if len(out['samples']) < 2 and paths:
@@ -104,8 +126,10 @@ def plan(ctx):
             sel = fam.select(pool, 14, ctx.seed, name) + special
         else:
             sel = pool + special + fam.random_args(ctx.seed, 30)
-        sel = list(dict.fromkeys(sel))
-        units.append((name, sel, ctx.seed, 120 if ctx.quick else 600, 40 if ctx.quick else 120))
+        # the first arguments are explored with both option flags symbolic (4 x the classes of k)
+        sel = list(dict.fromkeys(special[:4] + sel))
+        units.append((name, sel, ctx.seed, 120 if ctx.quick else 600, 40 if ctx.quick else 120,
+                      4 if ctx.quick else 25))
     return units
 
 
@@ -133,9 +157,10 @@ def run(ctx):
         for b in r['bad']:
             what = re.sub(r'\d+', '#', b['error'])[:120]
             key = f'C16|{what}'
-            rep.violation(key, f'{r["logic"]} {b["argstr"]} max_steps={b["k"]}: {b["error"]}',
+            rep.violation(key, f'{r["logic"]} {b["argstr"]} max_steps={b["k"]} options={b.get("opts")}: '
+                               f'{b["error"]}',
                           dict(logic=r['logic'], argstr=b['argstr'], k=b['k'], seed=ctx.seed,
-                               error=b['error']))
+                               opts=b.get('opts'), error=b['error']))
     rep.coverage = dict(
         states=paths, transitions=trans, traces_validated_against_impl=0, samples=samples[:4],
         pairs=pairs, longest_proof=maxlen, skipped_longer_than_bound=skipped[:40],
@@ -143,8 +168,11 @@ def run(ctx):
         bounds=dict(arguments='examples + modal + first-order shapes (families/args.py), '
                     + ('14 per logic by seed + 9 fixed' if ctx.quick else 'all + 30 random per logic'),
                     step_limit='k ranges over all integers (symbolic); one class per prefix',
+                    options=f'is_group_optim / is_rank_optim symbolic on the first {4 if ctx.quick else 25} '
+                            'arguments per logic, defaults elsewhere',
+                    api='explicit step() loop (what build() does), return values compared with the history',
                     proof_length=f'natural length <= {40 if ctx.quick else 120} steps',
-                    options='defaults', order_seed=ctx.seed),
+                    order_seed=ctx.seed),
         solver=dict(queries=queries, solver_time_s=round(st_time, 2)),
         functions_executed=['Tableau.__init__/logic/argument setters/build_trunk/step/next/finish',
                             'Tableau.__listen_on listeners', 'Tableau.Tree._build*', 'Tableau._compute_stats',
@@ -159,9 +187,10 @@ def run(ctx):
 def replay(data):
     from pytableaux.logics import registry
     registry.import_all()
-    drv = ReplayDriver([], dict(k=data['k']))
+    opts = data.get('opts')
+    drv = ReplayDriver([], dict(k=data['k'], **(opts or {})))
     try:
-        fn(drv, data['logic'], data['argstr'], data.get('seed', 0))
+        fn(drv, data['logic'], data['argstr'], data.get('seed', 0), sym_opts=opts is not None)
     except Broken as e:
         return True, f'{data["logic"]} {data["argstr"]} max_steps={data["k"]}: {e}'
     except Exception as e:  # noqa: BLE001
